@@ -10,7 +10,7 @@
    (C05_pinned_refuted). *)
 From Common Require Import Bytes Outcome Blake2b.
 From TrieCodec Require Import Codec View Db ProofsDecode ProofsDb.
-From C05 Require Import Model ProofsSound ProofsInj ProofsGen ProofsComplete Examples.
+From C05 Require Import Model ProofsSound ProofsInj ProofsGen ProofsComplete ProofsRobust Examples.
 Local Open Scope N_scope.
 
 (* Completeness.  For every well-formed state trie t (either version: any mix of inline and hashed
@@ -59,6 +59,25 @@ Proof.
   destruct (verify_sound H Hlen st dfix ifix nodes t key value W Nc Hk E) as (v & Hv & _). congruence.
 Qed.
 Print Assumptions C05_sound_absent.
+
+(* Robustness against the supplied nodes: checked against the root hash of a well-formed (non-empty)
+   state, Verify never panics, whatever proof items are supplied.  (verify.go dereferences the nil
+   node that node.Decode returns for the item 00 when that item is picked as the root or as a child;
+   under no_coll an item picked under a hash of the state is the encoding of a node of the state.)
+   The panic the harness observes (`AN:00` with the root hash of the empty state) is outside this
+   theorem's hypothesis and outside the property text: nothing is confirmed. *)
+Theorem C05_verify_no_panic :
+  forall (H : list byte -> list byte), (forall x, length (H x) = 32%nat) ->
+  forall st dfix ifix nodes t key value,
+  wf_node t = true -> no_coll H nodes t ->
+  verify H st dfix true ifix true nodes (H (encode H t)) key value <> Panic.
+Proof. exact verify_no_panic. Qed.
+Print Assumptions C05_verify_no_panic.
+
+(* ... and it does panic on the item 00 under the root hash of the empty state *)
+Example C05_verify_panics_on_empty_node :
+  verify B (false, false) true true true true [[n2b 0]] (B [n2b 0]) (nib [1]) [] = Panic.
+Proof. vm_compute. reflexivity. Qed.
 
 (* ------------------------------------------------------------------ examples with the real hash
    (the states ex_* and their evaluation are in Examples.v) *)
